@@ -603,11 +603,19 @@ def run_history(kind, nmsgs, consumers, hist, cancel_at=None, deviations=None, c
 # --------------------------------------------------------------------------------------
 # BFS driver (level-synchronous, parallel)
 # --------------------------------------------------------------------------------------
+_TAKEN = [["enq", "m0", "now"], ["start", "cN0"], ["consume", "cN0"]]
+ROOTS = [
+    # cN0 has delivered m0 and the application has settled it: cN0 stays started and remembers the delivery
+    _TAKEN + [["nack", "m0"]],
+    _TAKEN + [["reject", "m0"]],
+    _TAKEN + [["requeue", "m0", "new"]],
+    _TAKEN + [["ack", "m0"]],
+]
 CONFIGS = {
     "quick": dict(nmsgs=2, depth={"mem": 5, "redis": 5, "amqp": 5}, cancel_depth=4,
-                  consumers=["cN0", "cN1", "cD", "cX"]),
+                  consumers=["cN0", "cN1", "cD", "cX"], roots=ROOTS, root_depth=3),
     "thorough": dict(nmsgs=3, depth={"mem": 7, "redis": 6, "amqp": 6}, cancel_depth=5,
-                     consumers=["cN0", "cN1", "cD", "cX"]),
+                     consumers=["cN0", "cN1", "cD", "cX"], roots=ROOTS, root_depth=4),
 }
 KINDS = ["mem", "redis", "amqp"]
 
@@ -672,44 +680,63 @@ def search(kind, tier):
     cfg = CONFIGS[tier]
     acc = Acc()
     nm, cons, depth = cfg["nmsgs"], cfg["consumers"], cfg["depth"][kind]
-    seen = set()
-    root = run_history(kind, nm, cons, [])
-    seen.add(root["key"])
-    frontier = [([], root["enabled"])]
     transitions = 0
     cancel_pairs = []  # (hist+op) for the cancellation sweep, one per distinct (state, op)
     maxdepth = 0
-    for d in range(1, depth + 1):
-        todo = [dict(kind=kind, nmsgs=nm, consumers=cons, hist=h + [op]) for h, en in frontier for op in en]
-        if not todo:
-            break
-        results = pmap(__name__, "_expand", todo)
-        nxt = []
-        for r in results:
-            transitions += 1
-            acc.executions += 1
-            acc.handles += r["iters"]
-            if r.get("cut"):
-                continue
-            if r["viol"]:
-                for sig, what in r["viol"]:
-                    acc.violations.append(dict(
-                        signature=f"{kind} {sig}",
-                        what=what + f" [history {r['hist']}]",
-                        job=dict(kind=kind, nmsgs=nm, consumers=cons, hist=r["hist"]),
-                    ))
-                continue  # a violating state is not expanded
-            if d <= cfg["cancel_depth"] and r["hist"][-1][0] != "tick" and r["iters"] > 0 \
-                    and r["hist"][-1][-1] != "dead":  # the composite start step is not an API call
-                cancel_pairs.append((r["hist"], r["iters"]))
-            if r["key"] in seen:
-                continue
-            seen.add(r["key"])
-            nxt.append((r["hist"], r["enabled"]))
-            maxdepth = d
-            if len(acc.samples) < 3 and d >= 3:
-                acc.samples.append(dict(broker=kind, history=r["hist"]))
-        frontier = nxt
+
+    def bfs(prefix, depth, with_cancel):
+        """Level-synchronous search from the state reached by `prefix` (replayed on every execution)."""
+        nonlocal transitions, maxdepth
+        seen = set()
+        root = run_history(kind, nm, cons, prefix)
+        if root.get("cut") or root["viol"] or root["key"] is None:
+            raise AssertionError(f"C01 start state {prefix} is not clean on {kind}: {root['viol']}")
+        seen.add(root["key"])
+        frontier = [(list(prefix), root["enabled"])]
+        for d in range(1, depth + 1):
+            todo = [dict(kind=kind, nmsgs=nm, consumers=cons, hist=h + [op]) for h, en in frontier for op in en]
+            if not todo:
+                break
+            results = pmap(__name__, "_expand", todo)
+            nxt = []
+            for r in results:
+                transitions += 1
+                acc.executions += 1
+                acc.handles += r["iters"]
+                if r.get("cut"):
+                    continue
+                if r["viol"]:
+                    for sig, what in r["viol"]:
+                        acc.violations.append(dict(
+                            signature=f"{kind} {sig}",
+                            what=what + f" [history {r['hist']}]",
+                            job=dict(kind=kind, nmsgs=nm, consumers=cons, hist=r["hist"]),
+                        ))
+                    continue  # a violating state is not expanded
+                if with_cancel and d <= cfg["cancel_depth"] and r["hist"][-1][0] != "tick" and r["iters"] > 0 \
+                        and r["hist"][-1][-1] != "dead":  # the composite start step is not an API call
+                    cancel_pairs.append((r["hist"], r["iters"]))
+                if r["key"] in seen:
+                    continue
+                seen.add(r["key"])
+                nxt.append((r["hist"], r["enabled"]))
+                maxdepth = max(maxdepth, len(r["hist"]))
+                if len(acc.samples) < 3 and d >= 3:
+                    acc.samples.append(dict(broker=kind, history=r["hist"]))
+            frontier = nxt
+        return seen
+
+    seen = bfs([], depth, True)
+    # non-initial start states: the canonical key holds what the broker and the reference model see, not what
+    # a consumer object remembers privately (its last delivery, delivery tags); a prefix that leaves such a
+    # memory behind is merged with the shorter history that reaches the same broker state without it.  Each of
+    # these prefixes therefore gets a search of its own (own seen-set), a few steps deep.
+    nroot = 0
+    for prefix in cfg["roots"]:
+        s2 = bfs(prefix, cfg["root_depth"], False)
+        nroot += len(s2)
+        seen |= {f"{json.dumps(prefix)}:{k}" for k in s2}
+    acc.extra[f"{kind}_states_from_non_initial_roots"] = nroot
     # cancellation sweep: distinct (pre-state, op) pairs only
     seen_pairs = set()
     ctodo = []
@@ -769,4 +796,6 @@ def coverage(acc, tier):
         depth_bound=CONFIGS[tier]["depth"],
         messages=CONFIGS[tier]["nmsgs"],
         cancel_depth=CONFIGS[tier]["cancel_depth"],
+        non_initial_roots=CONFIGS[tier]["roots"],
+        non_initial_root_depth=CONFIGS[tier]["root_depth"],
     )
